@@ -27,7 +27,8 @@ structure Inv3 (cfg : Cfg) (s : State) : Prop where
 theorem inv3_init (cfg : Cfg) : Inv3 cfg init := by
   constructor <;> simp [init]
 
-macro "close_inv3" : tactic => `(tactic| (constructor <;> (try simp_all [inTransit]) <;> grind [inTransit]))
+macro "close_inv3" : tactic => `(tactic| (constructor <;> (try dsimp only) <;>
+  first | grind [inTransit] | ((try simp_all [inTransit]) <;> grind [inTransit])))
 
 theorem inv3_srcRet {cfg : Cfg} {s s' : State} (ev : _) (h1' : Inv1 cfg s) (h2' : Inv2 cfg s) (hi : Inv3 cfg s)
     (h : step good cfg s (.srcRet ev) = some s') : Inv3 cfg s' := by
@@ -141,7 +142,6 @@ theorem inv3_announce {cfg : Cfg} {s s' : State} (h1' : Inv1 cfg s) (h2' : Inv2 
   obtain ⟨e1, e2, e2b, e2c, e3, e3b, e3c, e4, h1, h2, h3, r1, r2, r3, d_end2⟩ := hi
   unfold_step at h <;> (repeat' split at h) <;> cases h <;> close_inv3
 
-set_option maxHeartbeats 1600000 in
 theorem inv3_deliver {cfg : Cfg} {s s' : State} (h1' : Inv1 cfg s) (h2' : Inv2 cfg s) (hi : Inv3 cfg s)
     (h : step good cfg s (.deliver) = some s') : Inv3 cfg s' := by
   obtain ⟨c1, t1a, t_set, t_ne, t_len, t_armed, t_fired, n1, n2, u0, u3, u1⟩ := h1'
